@@ -187,6 +187,9 @@ func runFrame(fr *frame) {
 		if _, ok := r.(internalError); ok {
 			panic(r)
 		}
+		if _, ok := r.(crashPanic); ok {
+			panic(r) // a process kill: no deferred call runs
+		}
 		if re, ok := r.(runtime.Error); ok {
 			// a Go runtime error inside the interpreter stands for the target's run-time panic,
 			// except for interpreter bugs, which we try to tell apart by the message
@@ -221,6 +224,9 @@ func runFrame(fr *frame) {
 }
 
 type internalError struct{ msg string }
+
+// crashPanic models the process being killed: it unwinds to runUntilCrash without running defers.
+type crashPanic struct{}
 
 func isInterpreterBug(re runtime.Error) bool {
 	s := re.Error()
@@ -299,6 +305,17 @@ func NewShared(prog *ssa.Program, mainPkg *ssa.Package, sizes types.Sizes) *Shar
 		sh.rtErrType = t.Type()
 	} else {
 		sh.rtErrType = prog.ImportedPackage("runtime").Type("errorString").Object().Type()
+	}
+	// environment functions replaced by harness-side models (an in-memory file system)
+	for real, model := range map[string]string{
+		"os.MkdirAll": "vfsMkdirAll", "os.CreateTemp": "vfsCreateTemp", "os.Open": "vfsOpen", "os.Create": "vfsCreate",
+		"os.Rename": "vfsRename", "os.Remove": "vfsRemove",
+		"(*os.File).Name": "vfsFileName", "(*os.File).WriteString": "vfsFileWriteString", "(*os.File).Write": "vfsFileWrite",
+		"(*os.File).Close": "vfsFileClose", "(*os.File).Read": "vfsFileRead",
+	} {
+		if f := mainPkg.Func(model); f != nil {
+			sh.subst[real] = f
+		}
 	}
 	// substitutions declared by the harness: func verifSubst_<pkg>_<Name> replaces <pkg>.<Name>
 	for name, m := range mainPkg.Members {
